@@ -124,6 +124,32 @@ def build_gnu(names, symoffset, nbuckets, bloom_size, shift, cls, enc):
             words(buckets, enc) + words(chain, enc))
 
 
+def rdw(b, off, enc, n=4):
+    return int.from_bytes(b[off:off + n], "little" if enc == "lsb" else "big")
+
+
+def sysv_wf(b, enc):
+    """hypothesis `SysvWf` of lookup_name_wellformed, read independently"""
+    if len(b) < 8: return False
+    nb, nc = rdw(b, 0, enc), rdw(b, 4, enc)
+    return (nb >= 1 and len(b) == 4 * (2 + nb + nc) and 2 + nb + nc < 2 ** 32 and
+            all(rdw(b, 4 * (2 + nb + y), enc) < y for y in range(1, nc)))
+
+
+def gnu_wf(b, enc, cls):
+    """hypothesis `GnuWf` (for some number of chain words), read independently"""
+    if len(b) < 16: return False
+    w = 4 if cls == 32 else 8
+    nbk, so, bs = rdw(b, 0, enc), rdw(b, 4, enc), rdw(b, 8, enc)
+    base_b = 16 + bs * w; base_c = base_b + 4 * nbk
+    if nbk < 1 or bs < 1 or len(b) < base_c or (len(b) - base_c) % 4: return False
+    nch = (len(b) - base_c) // 4
+    for k in range(nbk):
+        bv = rdw(b, base_b + 4 * k, enc)
+        if bv >= so and not bv - so < nch: return False
+    return nch == 0 or rdw(b, base_c + 4 * (nch - 1), enc) % 2 == 1
+
+
 # ---------------------------------------------------------------- generator
 
 def hx(b):
@@ -428,6 +454,12 @@ def oracle(case, out):
             ref = Ref(cls, kv.get("enc", "lsb"), int(kv.get("entsize", 16 if cls == 32 else 24)))
             continue
         if ref is None:
+            continue
+        if op == "sethash":
+            kv = fields(ln); d = unhx(kv.get("data", "-"))
+            okh = sysv_wf(d, ref.enc) if int(kv.get("type", "5")) == SHT_HASH else gnu_wf(d, ref.enc, ref.cls)
+            if not okh:     # the generator must only attach tables inside the theorems' hypotheses
+                bad("generator:malformed-hash-table", f"`{ln[:50]}...` does not satisfy SysvWf/GnuWf"); return v
             continue
         if op in ("add", "addi", "addbt"):
             a = [int(x, 0) for x in t[2:]]
